@@ -417,6 +417,17 @@ package value
 //@ func CompareValues
 //@   requires okElem(left) && okElem(right)
 //@   modifies nothing
+//@   ensures [null] is(left, *Null) ==> r1 == nil && r0 == is(right, *Null)
+//@   ensures [number-eq] is(left, *Number) && is(right, *Number) && verb == CmpEq ==> r1 == nil && r0 == feq(as(left, *Number).value, as(right, *Number).value)
+//@   ensures [number-lt] is(left, *Number) && is(right, *Number) && verb == CmpLt ==> r1 == nil && r0 == (as(left, *Number).value < as(right, *Number).value)
+//@   ensures [number-gt] is(left, *Number) && is(right, *Number) && verb == CmpGt ==> r1 == nil && r0 == (as(left, *Number).value > as(right, *Number).value)
+//@   ensures [bool] is(left, *Bool) && verb == CmpEq ==> r1 == nil && r0 == (is(right, *Bool) && as(left, *Bool).value == as(right, *Bool).value)
+//@   ensures [list-lengths] is(left, *Array) && is(right, *Array) && verb == CmpEq && len(as(left, *Array).value) != len(as(right, *Array).value) ==> r1 == nil && !r0
+//@   ensures [dict-vs-other] is(left, *HashMap) && !is(right, *HashMap) && verb == CmpEq ==> r1 == nil && !r0
+//@   ensures [dict-equal-means-same-keys] is(left, *HashMap) && is(right, *HashMap) && r1 == nil && r0 ==>
+//@             len(as(left, *HashMap).value) == len(as(right, *HashMap).value) &&
+//@             (forall k string :: has(as(left, *HashMap).value, k) ==> has(as(right, *HashMap).value, k))
+//@   loop 2 invariant forall i int :: 0 <= i && i <= rangeindex#2 ==> has(as(right, *HashMap).value, as(left, *HashMap).keyOrder[i])
 
 //@ func DuplicateValue
 //@   requires okElem(in)
